@@ -676,6 +676,7 @@ func runC17(tier string) int {
 	c17ScaledContext(r, tier)
 	c17FamilyContext(r, tier)
 	c17ManyDataStatements(r, tier)
+	c17ManyScripts(r, tier)
 
 	schedWG.Wait()
 	if schedErr != "" {
@@ -738,7 +739,7 @@ func runC17(tier string) int {
 		"'fresh process' baselines are computed by subprocesses that run exactly one compilation",
 		"context independence compares a statement's emitted section with every hoisted text / movement label replaced by the data it denotes (numbering and sharing are free, content is not)")
 	return r.Finish(r.Get("evaluations"), r.Get("nontrivial"),
-		"(1) schedules: for every corpus input (many-chunk scripts, label clashes, unknown-font errors against 2- and 3-font configs, all small 'general' programs, optimize on/off) every execution with <= d deviating map-iteration choice points (all n! orders for n <= 4, else reverse, rotations, adjacent transpositions), each run twice; (2) histories: every sequence of <= k compilations (k = 2 over all 576 actions, 3 over 72, thorough: 4 and 5 over 18) over 9 inputs x optimize x 2 font files x default font id {config default, -f} x default line length {config, -l} x 2 switch assignments x 2 command configs sharing the maps, each result compared with the same compilation as first action of a fresh process; (3) every top-level statement of a 16-statement family (scripts, texts, movements, marts, mapscripts, raw, const; texts and a movement whose content a poryswitch selects; statements named by the dictionary) among every ordered selection of <= m other statements at every position; (4) files with N texts, N movements, N marts and N scripts for every N up to the bound in the coverage in 4 interleavings: every data block is the block of the statement compiled alone; states/transitions = executions; non-trivial = a deviating schedule, a history of length >= 2 or a context with a neighbour")
+		"(1) schedules: for every corpus input (many-chunk scripts, label clashes, unknown-font errors against 2- and 3-font configs, all small 'general' programs, optimize on/off) every execution with <= d deviating map-iteration choice points (all n! orders for n <= 4, else reverse, rotations, adjacent transpositions), each run twice; (2) histories: every sequence of <= k compilations (k = 2 over all 576 actions, 3 over 72, thorough: 4 and 5 over 18) over 9 inputs x optimize x 2 font files x default font id {config default, -f} x default line length {config, -l} x 2 switch assignments x 2 command configs sharing the maps, each result compared with the same compilation as first action of a fresh process; (3) every top-level statement of a 16-statement family (scripts, texts, movements, marts, mapscripts, raw, const; texts and a movement whose content a poryswitch selects; statements named by the dictionary) among every ordered selection of <= m other statements at every position; (4) files with N texts, N movements, N marts and N scripts for every N up to the bound in the coverage in 4 interleavings: every data block is the block of the statement compiled alone; (5) for each of 31 statement templates a file of N scripts holding it: the output is the outputs of the scripts compiled alone, in order; states/transitions = executions; non-trivial = a deviating schedule, a history of length >= 2 or a context with a neighbour")
 }
 
 // c17ManyDataStatements: files with N texts, N movements, N marts and N small scripts (all different, some texts and
@@ -829,4 +830,57 @@ func c17ManyDataStatements(r *harness.Run, tier string) {
 		r.NotExhaustive("many-statement files not completed")
 	}
 	r.Set("many_statement_files_max_n", maxN)
+}
+
+// c17ManyScripts: for every statement template (and two more whose conditions hold a parenthesised and a negated group), a
+// file of N scripts that each consist of that statement between two commands. The file compiles to the outputs of the
+// scripts compiled alone, one after the other: anything that a statement leaves behind for the rest of the file (a counter
+// that is not wound back, a table that fills up) shows at the script where it reaches its limit.
+func c17ManyScripts(r *harness.Run, tier string) {
+	n := 320
+	if tier == "thorough" {
+		n = 1200
+	}
+	ts := seqTemplates()
+	group := func(neg bool) func(k int) model.Stmt {
+		return func(k int) model.Stmt {
+			g := &model.Cond{Kind: model.COr, L: mflag(fmt.Sprintf("GA%d", k)), R: mflag(fmt.Sprintf("GB%d", k))}
+			var left *model.Cond
+			if neg {
+				left = &model.Cond{Kind: model.CNot, L: g}
+			} else {
+				left = &model.Cond{Kind: model.CParen, L: g}
+			}
+			return model.Stmt{Kind: model.SIf, Arms: []model.Arm{{Cond: &model.Cond{Kind: model.CAnd, L: left, R: mflag(fmt.Sprintf("GC%d", k))}, Body: []model.Stmt{mcmd(fmt.Sprintf("g%d", k))}}}}
+		}
+	}
+	ts = append(ts, group(false), group(true))
+	done := r.Parallel(uint64(len(ts))*2, func(w int, idx uint64) {
+		ti, opt := int(idx/2), idx%2 == 0
+		var parts, alone []string
+		for i := 0; i < n; i++ {
+			sc := &model.Script{Name: fmt.Sprintf("SC_%d", i), Body: []model.Stmt{mcmd("a"), ts[ti](i), mcmd("z")}}
+			src := model.Print([]*model.Script{sc})
+			parts = append(parts, src)
+			res := comp.Compile(src, comp.Opts{Optimize: opt})
+			if res.Err != nil || res.Panic != "" {
+				r.Report(harness.Violation{Sig: "C17:many-scripts:rejected-alone", Summary: fmt.Sprintf("template %d script %d rejected alone: %v %s", ti, i, res.Err, firstLine(res.Panic)), Replay: map[string]interface{}{"source": src}})
+				return
+			}
+			alone = append(alone, res.Out)
+		}
+		src := strings.Join(parts, "\n")
+		res := comp.Compile(src, comp.Opts{Optimize: opt})
+		r.Add("evaluations", 1)
+		r.Add("nontrivial", 1)
+		r.Add("many_script_files", 1)
+		want := strings.Join(alone, "\n")
+		if res.Err != nil || res.Panic != "" || res.Out != want {
+			r.Report(harness.Violation{Sig: "C17:many-scripts", Summary: fmt.Sprintf("file of %d scripts that each hold statement template %d (optimize=%v): error %v %s; compared with the scripts compiled alone: %s", n, ti, opt, res.Err, firstLine(res.Panic), firstDiff(res.Out, want)), Replay: map[string]interface{}{"source": src, "optimize": opt, "template": ti, "scripts": n}})
+		}
+	})
+	if !done {
+		r.NotExhaustive("many-script files not completed")
+	}
+	r.Set("many_script_files_scripts", n)
 }
